@@ -148,7 +148,7 @@ PROPS = {
                      "Luau types: the arms of format_type_info_internal that build arrays, callbacks, generics, tables, typeof and module types are behind one wrapper without contract (the types nested in them are formatted by calls the unit does not follow); "
                      "the list formatter of the types inside parentheses takes a closure that recurses: its result is assumed to have as many types as its input"],
         assumptions=["leaf formatters return the same leaf (var_id, call_id, table_id, ... postconditions on stubs)"]),
-    "C01": dict(units=["expr", "block", "lib", "tok", "table", "collapse"], bounded=[dict(kind="lib", witnesses="C01_BOUNDED"), dict(kind="corpus", kinds=["parse"]), dict(kind="inject", kinds=["parse"]), dict(kind="range", kinds=["parse"])],
+    "C01": dict(units=["expr", "block", "lib", "tok", "table", "collapse", "bodies"], bounded=[dict(kind="lib", witnesses="C01_BOUNDED"), dict(kind="corpus", kinds=["parse"]), dict(kind="inject", kinds=["parse"]), dict(kind="range", kinds=["parse"])],
         explanation="(unit collapse: a function body / if guard is only written on one line — with `end` behind its statement — when no comment is found in it.) necessary conditions, each a mechanism the property names: (1) `- -x` guard on both layout paths, right-open expressions never freed under an operator (C05 contract); "
                     "(2) a long-bracket string is separated from `[` (format_index, format_field, is_brackets_string); (3) the statement separator is kept where the next statement starts with `(` "
                     "(format_block); (4) LINE SAFETY inside expressions (prelude/lines.rs): esafe(r) is a postcondition of format_expression, format_expression_internal, hang_binop_expression, "
@@ -229,6 +229,11 @@ SORT_WITNESSES = [
     # an ignore region that starts in front of one require group and ends behind the next one: neither group is touched, later groups are sorted
     w('local x   =  1\n\n-- stylua: ignore start\nlocal b   = require("b")\nlocal a = require( "a" )\n\nlocal d   =   require("d")\nlocal c =   require( "c" )\n-- stylua: ignore end\n\nlocal z   =  2\nlocal f = require("f")\nlocal e = require("e")\n',
       oracle="contains", contains='-- stylua: ignore start\nlocal b   = require("b")\nlocal a = require( "a" )\n\nlocal d   =   require("d")\nlocal c =   require( "c" )\n-- stylua: ignore end\n\nlocal z = 2\nlocal e = require("e")\nlocal f = require("f")\n', **SR),
+    # an ignore region that opens above a group of ONE require: the groups behind it, inside the region, are not touched either; and the mirror case
+    w('local Players = require("Players")\n\n-- stylua: ignore start\nlocal polyfill   =  require("polyfill")\n\nlocal globals = require("globals")\nlocal app   = require("app")\n-- stylua: ignore end\n\nlocal zeta = require("zeta")\nlocal alpha = require("alpha")\n',
+      oracle="contains", contains='-- stylua: ignore start\nlocal polyfill   =  require("polyfill")\n\nlocal globals = require("globals")\nlocal app   = require("app")\n-- stylua: ignore end\n\nlocal alpha = require("alpha")\nlocal zeta = require("zeta")\n', **SR),
+    w('-- stylua: ignore start\nlocal b   = require("b")\nlocal a = require("a")\n\n-- stylua: ignore end\nlocal lone = require("lone")\n\nlocal d = require("d")\nlocal c = require("c")\n',
+      oracle="contains", contains='local c = require("c")\nlocal d = require("d")\n', **SR),
     # a member that spans several lines does not split its group
     w('local Zebra = require(\n\tlong.path\n)\nlocal Apple = require("apple")\nlocal Mango = require("mango")\n', oracle="contains", contains='local Apple = require("apple")\nlocal Mango = require("mango")\nlocal Zebra = require(long.path)\n', **SR),
     # the sort is stable: requires bound to the same name keep their order (a later one shadows an earlier one)
@@ -311,6 +316,8 @@ LOOP_WITNESSES = [w(LOOP_SRC, oracle="tree", sweep=(10, 120)), w(LOOP_SRC, oracl
 COLLAPSE_LUAU_SRC = ('local function f() count += 1 end\nlocal g = function() total -= step end\nif ready then n *= 2 end\ncall(function() x ..= "s" end)\nlocal t = { h = function() y //= 2 end }\n'
                      'local function k(): number return 1 end\nif a then local z: number = 1 end\n')
 COLLAPSE_LUAU_WITNESSES = [w(COLLAPSE_LUAU_SRC, oracle="tree", syntax="luau", collapse_simple_statement=c, sweep=(20, 120)) for c in ("Always", "FunctionOnly", "ConditionalOnly")]
+HEADER_COMMENT_WITNESSES = [w('while -- c\n x do f() end\nif -- d\n y then z() end\nif a then b() elseif -- e\n c then d() end\nwhile --[[k]] v do end\nif p then q() end -- t\n', oracle=o, collapse_simple_statement=c, sweep=(10, 120))
+                            for o in ("tree", "comments") for c in ("Never", "Always")]
 COND_COMMENT_WITNESSES = [w('while ( --[[a]] x --[[b]] ) --[[c]] do end\nif --[[d]] (y) then end\nrepeat until ( --[[e]] z )\nwhile ( -- f\n w) do end\nif (a) then end\n', oracle="comments", sweep=(20, 120))]
 SEMI_COMMENT_WITNESSES = [w('local a = b; -- c\n(f or g)()\nlocal d = e; --[[ blk ]]\n(h)()\nx = 1; -- gone\nreturn x; -- last\n', oracle="comments")]
 a26, b30, c26 = "a" * 26, "b" * 30, "c" * 26
@@ -355,6 +362,7 @@ WITNESSES = {
     "C02.stmt": COLLAPSE_WITNESSES, "C02.if_guard": COLLAPSE_WITNESSES, "C02.simple_block": COLLAPSE_WITNESSES, "C02.collapsed_function": COLLAPSE_WITNESSES, "C02.format_if": COLLAPSE_WITNESSES + COND_COMMENT_WITNESSES,
     "C02.do_keeps": LOOP_WITNESSES, "C02.while_keeps": LOOP_WITNESSES, "C02.repeat_keeps": LOOP_WITNESSES, "C02.elseif_keeps": LOOP_WITNESSES, "C02.numeric_for": LOOP_WITNESSES, "C02.generic_for": LOOP_WITNESSES,
     "C02.format_if_keeps_condition": LOOP_WITNESSES + COND_COMMENT_WITNESSES,
+    "C01.header_keyword": HEADER_COMMENT_WITNESSES, "C01.if_keyword": HEADER_COMMENT_WITNESSES,
     "C02.empty_block": COLLAPSE_WITNESSES, "C03.if_guard": COLLAPSE_WITNESSES, "C03.collapsed_function": COLLAPSE_WITNESSES, "C01.semicolon": COLLAPSE_WITNESSES[:2] + SEMI_COMMENT_WITNESSES, "C08.block": SEMI_COMMENT_WITNESSES,
     "C02.": TYPE_WITNESSES, "C03.": TABLE_COMMENT_WITNESSES, "C03.field_value": FIELD_COMMENT_WITNESSES, "C02.field_value": FIELD_COMMENT_WITNESSES,
     "C01.line_comment": C04_WITNESSES + C10_WITNESSES[:4], "C04.": C04_WITNESSES, "C03.token_text": C04_WITNESSES + C10_WITNESSES, "C11.quote_choice": C04_WITNESSES[:4], "C10.": C10_WITNESSES,
@@ -373,7 +381,7 @@ WITNESSES = {
     "C01.double_minus_guard": EXPR_WITNESSES[1:3],
 }
 
-C01_BOUNDED = D39_WITNESSES[:3] + LUAU_TYPE_FIX_WITNESSES[:1] + [x for x in COLLAPSE_WITNESSES if x["oracle"] == "comments"] + BRACKET_WITNESSES + REHANG_WITNESSES[1:] + BINOP_COMMENT_WITNESSES + CALL_COMMENT_WITNESSES[:1] + PARAM_COMMENT_WITNESSES + UNOP_COMMENT_WITNESSES + ARG_PAREN_COMMENT_WITNESSES + [LINE_SAFE_WITNESSES[i] for i in (0, 2, 4)] + LOCAL_COMMENT_WITNESSES + OPEN_COMMENT_FINDINGS + D30_FINDINGS
+C01_BOUNDED = HEADER_COMMENT_WITNESSES + D39_WITNESSES[:3] + LUAU_TYPE_FIX_WITNESSES[:1] + [x for x in COLLAPSE_WITNESSES if x["oracle"] == "comments"] + BRACKET_WITNESSES + REHANG_WITNESSES[1:] + BINOP_COMMENT_WITNESSES + CALL_COMMENT_WITNESSES[:1] + PARAM_COMMENT_WITNESSES + UNOP_COMMENT_WITNESSES + ARG_PAREN_COMMENT_WITNESSES + [LINE_SAFE_WITNESSES[i] for i in (0, 2, 4)] + LOCAL_COMMENT_WITNESSES + OPEN_COMMENT_FINDINGS + D30_FINDINGS
 C02_BOUNDED = COLLAPSE_LUAU_WITNESSES[:1] + TYPE_WITNESSES + LUAU_TYPE_FIX_WITNESSES[:1] + [x for x in COLLAPSE_WITNESSES if x["oracle"] == "tree"] + CALL_COMMENT_WITNESSES[1:] + [LINE_SAFE_WITNESSES[i] for i in (1, 3)] + ATTR_COMMENT_WITNESSES + D30_TREE_FINDINGS
 C03_BOUNDED = (D39_WITNESSES[3:] + LUAU_TYPE_FIX_WITNESSES[1:] + TABLE_COMMENT_WITNESSES + COND_COMMENT_WITNESSES + SEMI_COMMENT_WITNESSES + [x for x in COLLAPSE_WITNESSES if x["oracle"] == "comments"][:2]
                + PAREN_COMMENT_WITNESSES + REHANG_WITNESSES[:1] + SORT_COMMENT_WITNESSES + FIELD_COMMENT_WITNESSES + OPEN_C03_FINDINGS)
